@@ -230,7 +230,7 @@ impl<'a, 'b> B<'a, 'b> {
         if self.opts.generics && !self.opts.simple && lvl < 2 && self.t.chance(1, 24) {
             // TFoo<T>.Create(...)
             self.tag("generic-expr");
-            let n = *self.t.pick(&["TList", "TDict", "TFoo"]);
+            let n = *self.t.pick(&["TList", "TDict", "TFoo", "TDict"]);
             self.named(n);
             self.op("<");
             self.type_name();
@@ -239,6 +239,11 @@ impl<'a, 'b> B<'a, 'b> {
                 self.type_name();
             }
             self.op(">");
+            if self.t.chance(1, 3) {
+                // generic routine call: Name<A, B>(args)
+                self.args(lvl + 1);
+                return;
+            }
             self.op(".");
             self.named("Create");
             if self.t.chance(1, 2) {
@@ -278,7 +283,14 @@ impl<'a, 'b> B<'a, 'b> {
             match which {
                 0 | 1 => {
                     self.op(".");
-                    self.id();
+                    if self.t.chance(1, 10) {
+                        // a member whose name is spelled like a keyword (an identifier after a dot)
+                        let m = *self.t.pick(&["Type", "Unit", "End", "Begin", "Name", "Index", "Read", "Message", "Default", "Label", "Of", "Object", "Property", "File"]);
+                        self.named(m);
+                        self.tag("keyword-named-member");
+                    } else {
+                        self.id();
+                    }
                 }
                 2 => {
                     self.op("[");
@@ -1437,7 +1449,7 @@ impl<'a, 'b> B<'a, 'b> {
         const LINES: &[&str] = &[
             "  MOV   EAX,  [EBX+4*ECX]", "push   ebp", "\tmov ebp,esp", "@loop:", "  dec ecx;  jnz @loop",
             "  db $90,$90 ,$90", "  mov al, 'x'", "  // comment   in asm", "  call   SysInit.@InitExe",
-            "  XOR EAX,EAX   { clear }", "  mov   [eax].TFoo.Bar ,  1", "  ret    4", "    LEA  ECX,[EDX*2 + 0FFh]",
+            "  XOR EAX,EAX   { clear }", "  mov eax, {$ifdef CPUX64} 1 {$else} 2 {$endif}", "  mov   [eax].TFoo.Bar ,  1", "  ret    4", "    LEA  ECX,[EDX*2 + 0FFh]",
         ];
         self.tag("asm");
         self.nl();
